@@ -131,3 +131,7 @@ def main(ctx, t0):
     extra = {"exhaustive": True, "plan": sorted({f"{sp}/{K}/{ar}" for (_, K, sp, ar) in plan(ctx)}),
              "models": spaces.KINDS}
     return core.finish(PID, ctx, LEVEL, acc, RULE, extra, ASSUMPTIONS, t0)
+
+
+def replay_unit(unit, ctx):
+    return run_unit(unit, ctx)
